@@ -71,13 +71,13 @@ pub fn opt_get_mut<'a, K, V>(g: &'a mut Option<OrderedMap<K, V>>, k: &K) -> (r: 
         },
 { unimplemented!() }
 
-pub struct ChanSender<T> { pub sent: Ghost<Seq<T>> }
+pub struct ChanSender<T> { pub sent: Ghost<Seq<T>>, pub failures: Ghost<nat> }
 impl<T> ChanSender<T> {
     #[verifier::external_body]
     pub fn send(&mut self, v: T) -> (r: Result<(), ChanSendError>)
         ensures
-            r is Ok ==> final(self).sent@ == old(self).sent@.push(v),
-            r is Err ==> final(self).sent@ == old(self).sent@,
+            r is Ok ==> final(self).sent@ == old(self).sent@.push(v) && final(self).failures@ == old(self).failures@,
+            r is Err ==> final(self).sent@ == old(self).sent@ && final(self).failures@ == old(self).failures@ + 1,
     { unimplemented!() }
 }
 #[verifier::external_body]
@@ -267,7 +267,7 @@ impl<R, T, F, M> Link<R, T, F, M> {
                 })
             &&& legal && old(self).output_handle is Some ==> final(self).output_handle is None                // [C13.link.handle-released-when-detach-sent] the output handle is given up exactly when the detach is sent, so no later frame can use it
                     && (r is Ok ==> final(writer).sent@ == old(writer).sent@.push(LinkFrame::Detach(Detach { handle: Handle(old(self).output_handle->Some_0.0), closed, error })))   // [C13.link.detach-frame] the detach carries the link's handle, the closed flag and the caller's error
-                    && (r is Err ==> final(writer).sent@ == old(writer).sent@)
+                    && (r is Err ==> final(writer).sent@ == old(writer).sent@ && final(writer).failures@ > old(writer).failures@)   // [C13.link.detach-fails-only-with-channel] with a handle and in a legal state the detach is queued unless the channel to the session is gone (this is the contract unit LINKDETACH relies on)
             &&& legal && old(self).output_handle is None ==> r is Err && final(writer).sent@ == old(writer).sent@   // [C13.link.no-frame-after-detach] without a handle nothing is sent
         }),
         final(self).input_handle == old(self).input_handle && final(self).name == old(self).name,
